@@ -66,23 +66,23 @@ type Failure struct {
 }
 
 type Result struct {
-	Property      string               `json:"property"`
-	Tier          string               `json:"tier"`
-	Seed          int64                `json:"seed"`
-	Evaluations   int                  `json:"evaluations"`
-	ReuseEvaluations int               `json:"reused_buffer_evaluations"`
-	DistinctNT    int                  `json:"distinct_nontrivial"`
-	Rule          string               `json:"rule"`
-	Samples       []string             `json:"samples"`
-	Distribution  map[string]int       `json:"distribution"`
-	Classes       map[string]int       `json:"answer_classes"`
-	Failures      []Failure            `json:"failures"`
-	Drift         []Failure            `json:"drift"`
-	CorpusRun     int                  `json:"corpus_cases"`
-	Exhaustive    bool                 `json:"exhaustive,omitempty"`
-	Notes         []string             `json:"notes,omitempty"`
-	KnownHits     map[string]*KnownHit `json:"known_hits,omitempty"`
-	truncFailures int
+	Property         string               `json:"property"`
+	Tier             string               `json:"tier"`
+	Seed             int64                `json:"seed"`
+	Evaluations      int                  `json:"evaluations"`
+	ReuseEvaluations int                  `json:"reused_buffer_evaluations"`
+	DistinctNT       int                  `json:"distinct_nontrivial"`
+	Rule             string               `json:"rule"`
+	Samples          []string             `json:"samples"`
+	Distribution     map[string]int       `json:"distribution"`
+	Classes          map[string]int       `json:"answer_classes"`
+	Failures         []Failure            `json:"failures"`
+	Drift            []Failure            `json:"drift"`
+	CorpusRun        int                  `json:"corpus_cases"`
+	Exhaustive       bool                 `json:"exhaustive,omitempty"`
+	Notes            []string             `json:"notes,omitempty"`
+	KnownHits        map[string]*KnownHit `json:"known_hits,omitempty"`
+	truncFailures    int
 }
 
 type KnownHit struct {
@@ -93,15 +93,15 @@ type KnownHit struct {
 
 type Runner struct {
 	sibCounter int
-	res      *Result
-	seen     map[[16]byte]struct{}
-	rng      *rand.Rand
-	oracle   *Oracle
-	batch    []*Case
-	mu       sync.Mutex
-	maxFail  int
-	tier     string
-	thorough bool
+	res        *Result
+	seen       map[[16]byte]struct{}
+	rng        *rand.Rand
+	oracle     *Oracle
+	batch      []*Case
+	mu         sync.Mutex
+	maxFail    int
+	tier       string
+	thorough   bool
 }
 
 func NewRunner(prop, tier string, seed int64, oraclePath string) *Runner {
